@@ -521,7 +521,7 @@ Fixpoint resolve_cmd (fuel : nat) (on : bool) (input : str) : list oline * optio
       let first := strip (no_color a0) in
       let second := match a1 with Some r => strip (no_color r) | None => [] end in
       match first, second with
-      | [], _ :: _ => ([OOM], None)        (* AssertionError: a colour sequence followed by a blank *)
+      | [], _ :: _ => resolve_cmd f on second   (* since the fix of D13: a first word made only of colour sequences is ignored *)
       | _, _ =>
           let '(first1, pre) :=
             match first with
